@@ -3,7 +3,7 @@ import ast
 import os
 import unicodedata
 
-from ..core import Property, unparse, norm, REPO_ROOT
+from ..core import Property, unparse, norm, REPO_ROOT, walk_no_nested
 from ..sym import Interp, S, term, show, subterms, flatten_cat
 from .. import intv, mut
 from ..cfg import build_cfg
@@ -551,47 +551,68 @@ def cache_keys(ctx):
 
 @PROP.obligation('C14.list-form', canaries=[
     mut.replace_expr('mnemonic', 'Mnemonic.__init__', 'w.strip()', "unicodedata.normalize('NFC', w.strip())", 'the word list is composed (NFC) on load'),
+    mut.replace_expr('mnemonic', 'Mnemonic.sanitize_mnemonic', '[w.strip() for w in f.readlines()]', "f.read().split('\\n')", 'the list a sentence is checked against keeps its line terminators'),
 ])
 def list_form(ctx):
-    """Words are looked up in the object's list (to_entropy: self._wordlist.index(word)) after the sentence went through
-    normalize_string (NFKD). The bundled spanish / french / japanese files are stored decomposed, so the lookup works only while the
-    list is what the file says: every element the constructor stores is the stripped line itself or its NFKD form (normalize_string /
-    unicodedata.normalize('NFKD', ...)) - any other normal form makes every accented word of a valid sentence "not in list"."""
-    q = 'mnemonic:Mnemonic.__init__'
-    fn = ctx.repo.func(q)
-    stores = [a for a in ast.walk(fn) if isinstance(a, ast.Assign) and any(norm(t) == 'self._wordlist' for t in a.targets) and not (isinstance(a.value, ast.List) and not a.value.elts)]
-    if not stores:
-        ctx.undecided('Mnemonic.__init__: no assignment of self._wordlist from the file')
+    """Words are looked up (to_entropy: self._wordlist.index(word); sanitize_mnemonic / detect_language: `word in wordlist`) after the
+    sentence went through normalize_string (NFKD). The bundled spanish / french / japanese files are stored decomposed and dutch.txt has
+    CRLF line ends, so a look-up works only while the list is what the file says line by line: at EVERY place mnemonic.py loads a word
+    list, each element is the stripped line (w.strip() over readlines(), or splitlines()) or its NFKD form - any other normal form makes
+    accented words "not in list", and elements cut at '\n' only keep the '\r' of the Dutch list, so no Dutch word is recognised."""
+    mod = ctx.repo.mod('mnemonic')
+    # which bundled lists would keep something when lines are cut at '\n' only (static data of the package, read as bytes)
+    import os
+    wl_dir = os.path.join(ctx.repo.root, 'bitcoinlib', 'wordlist')
+    needs_strip = sorted(f for f in os.listdir(wl_dir) if f.endswith('.txt') and b'\r' in open(os.path.join(wl_dir, f), 'rb').read()) if os.path.isdir(wl_dir) else []
+    ctx.saw('bundled word lists with CRLF line ends: %s' % needs_strip)
     n = 0
-    for a in stores:
-        v = a.value
-        if not isinstance(v, ast.ListComp) or len(v.generators) != 1 or not isinstance(v.generators[0].target, ast.Name):
-            ctx.undecided('Mnemonic.__init__: self._wordlist = %s is not a comprehension over the lines of the file' % norm(v)[:60])
-        var = v.generators[0].target.id
-        e = v.elt
-        forms = []
-        while True:
-            if isinstance(e, ast.Call) and isinstance(e.func, ast.Attribute) and e.func.attr in ('strip', 'rstrip') and norm(e.func.value) == var:
-                break
-            if isinstance(e, ast.Name) and e.id == var:
-                break
-            if isinstance(e, ast.Call) and norm(e.func) == 'normalize_string' and len(e.args) == 1:
-                forms.append('NFKD')
-                e = e.args[0]
+    for name, fn in sorted(mod.functions.items()):
+        q = 'mnemonic:' + name
+        for a in walk_no_nested(fn):
+            if not (isinstance(a, ast.Assign) and any(norm(t).split('.')[-1].lstrip('_') == 'wordlist' for t in a.targets)):
                 continue
-            if isinstance(e, ast.Call) and norm(e.func) == 'unicodedata.normalize' and len(e.args) == 2 and isinstance(e.args[0], ast.Constant):
-                forms.append(e.args[0].value)
-                e = e.args[1]
+            v = a.value
+            if isinstance(v, ast.List) and not v.elts:
                 continue
-            if isinstance(e, ast.Call) and isinstance(e.func, ast.Attribute) and e.func.attr in ('strip', 'rstrip'):
-                e = e.func.value
+            if isinstance(v, (ast.Name, ast.Attribute)):
                 continue
-            forms.append('?' + norm(e)[:30])
-            break
-        n += 1
-        ctx.saw('self._wordlist = [%s for %s in ...]: transformations besides strip: %s; filter: %s' % (norm(v.elt)[:60], var, forms or 'none', [norm(i)[:30] for i in v.generators[0].ifs] or 'none'))
-        bad = [f for f in forms if f != 'NFKD']
-        ctx.require(not bad, q, 'the words of the list are stored as `%s` (%s): not the form normalize_string gives the words that are looked up' % (norm(v.elt)[:60], ', '.join(bad)), a,
-                    "Mnemonic('spanish').to_entropy(<valid sentence with an accented word>) raises \"'envío' is not in list\": the official Japanese BIP39 vectors are rejected")
-        ctx.require(not v.generators[0].ifs, q, 'lines of the word-list file are filtered (`%s`): word numbers shift' % norm(v.generators[0].ifs[0])[:50] if v.generators[0].ifs else '', a)
-    ctx.floor(n, 1, 'word-list loads')
+            n += 1
+            forms, stripped, filt = [], False, []
+            if isinstance(v, ast.ListComp) and len(v.generators) == 1 and isinstance(v.generators[0].target, ast.Name):
+                var = v.generators[0].target.id
+                filt = v.generators[0].ifs
+                e = v.elt
+                while True:
+                    if isinstance(e, ast.Name) and e.id == var:
+                        break
+                    if isinstance(e, ast.Call) and isinstance(e.func, ast.Attribute) and e.func.attr in ('strip', 'rstrip') and not e.args:
+                        stripped = True
+                        e = e.func.value
+                        continue
+                    if isinstance(e, ast.Call) and norm(e.func) == 'normalize_string' and len(e.args) == 1:
+                        forms.append('NFKD')
+                        e = e.args[0]
+                        continue
+                    if isinstance(e, ast.Call) and norm(e.func) == 'unicodedata.normalize' and len(e.args) == 2 and isinstance(e.args[0], ast.Constant):
+                        forms.append(e.args[0].value)
+                        e = e.args[1]
+                        continue
+                    forms.append('?' + norm(e)[:30])
+                    break
+            elif isinstance(v, ast.Call) and isinstance(v.func, ast.Attribute) and v.func.attr == 'splitlines':
+                stripped = True
+            else:
+                forms.append('?' + norm(v)[:40])
+            ctx.saw('%s: %s = %s -> line ends removed: %s; other transformations: %s' % (name, norm(a.targets[0]), norm(v)[:60], stripped, forms or 'none'))
+            bad = [f for f in forms if f != 'NFKD' and not str(f).startswith('?')]
+            ctx.require(not bad, q, 'the words of the list are stored as `%s` (%s): not the form normalize_string gives the words that are looked up' % (norm(v)[:60], ', '.join(map(str, bad))), a,
+                        "Mnemonic('spanish').to_entropy(<valid sentence with an accented word>) raises \"'envío' is not in list\": the official Japanese BIP39 vectors are rejected")
+            unknown = [f for f in forms if str(f).startswith('?')]
+            if unknown or not stripped:
+                if needs_strip:
+                    ctx.violate(q, 'the word list is loaded as `%s`, which does not strip the line ends: every entry of %s keeps its carriage return' % (norm(v)[:70], ', '.join(needs_strip)), a,
+                                "no word of a valid Dutch sentence is found: sanitize_mnemonic / to_entropy / to_seed raise 'Unrecognised word' for it")
+                else:
+                    ctx.unsure('%s: word list loaded as `%s`' % (q, norm(v)[:60]))
+            ctx.require(not filt, q, 'lines of the word-list file are filtered (`%s`): word numbers shift' % (norm(filt[0])[:50] if filt else ''), a)
+    ctx.floor(n, 3, 'word-list loads')
